@@ -308,7 +308,7 @@ func main() {
 			depthMinus = 1
 		case methodWins == "d >= 0 && d < len(ti)-1 => { goto tryMethods }" &&
 			ambiguous == "d == len(ti)-1 || n.typ.fieldCount(n.child[1].ident, len(ti)-1) > 1":
-			// since 43e97a5: another field of that name at the depth of the field found is ambiguous too
+			// since f4dfaf4: another field of that name at the depth of the field found is ambiguous too
 			depthMinus, fieldAmb = 1, true
 		default:
 			unrec = append(unrec, "cfg.go case selectorExpr: depth comparisons: "+methodWins+" | "+ambiguous)
@@ -539,7 +539,7 @@ func main() {
 
 		// 5b. genInterfaceWrapper: the receiver its method wrappers get
 		ifaceWrapHeld := false
-		fdW := common.FindFunc(fr, "", "genInterfaceWrapperValue") // since ccca582 the body of genInterfaceWrapper lives here
+		fdW := common.FindFunc(fr, "", "genInterfaceWrapperValue") // since bbd3913 the body of genInterfaceWrapper lives here
 		if fdW == nil {
 			fdW = common.FindFunc(fr, "", "genInterfaceWrapper")
 		}
